@@ -1,7 +1,7 @@
 #!/bin/bash
 cd "$(dirname "$0")/.."
 ./check setup || exit 2
-for p in C17 C18 C20 C11 C02 C08; do
+for p in ${THOROUGH_LIST:-C02 C08 C18}; do
   t0=$(date +%s)
   ./check $p --tier thorough > /tmp/thorough-$p.log 2>&1
   rc=$?
